@@ -111,15 +111,23 @@ def forward_fields(ctx):
            'requirements of static libraries are not collected '
            'transitively')
     up = F.fn(OPT + 'ForwardOptions.update')
-    ext = F.effects(up, lambda e: e.name == 'extend', depth=0)
-    ok = bool(ext) and all(
-        has(e.recv() | e.heads(), '__slots__') or has_call(
-            e.recv(), 'getattr') for e in ext) and all(
-        param_of(e.all_args(), Q.params(up.node)[1]) and has(
-            e.all_args(), '__slots__') for e in ext) and not any(
-        isinstance(n, (ast.If, ast.IfExp)) for n in ast.walk(up.node)) and \
-        not any(g.ifs for n in ast.walk(up.node)
-                if isinstance(n, ast.comprehension) for g in [n])
+    ext = F.effects(up, lambda e: e.name == 'extend', depth=1)
+    # every slot of the class is merged: self.<slot>.extend(rhs.<slot>),
+    # spelled out or by a loop over __slots__ (unrolled by the engine)
+    slots = const_eval(repo, up.module, up.cls.attrs.get('__slots__'),
+                       up.cls) if up.cls is not None and \
+        up.cls.attrs.get('__slots__') is not None else None
+    rhs = Q.params(up.node)[1]
+    merged = set()
+    for e in ext:
+        for sl in (slots if isinstance(slots, (list, tuple)) else []):
+            ctl = {a for a in e.control() if '__slots__' not in a}
+            if has(e.recv(), 'self', sl) and has(e.all_args(), rhs, sl) and \
+                    not ctl and not e.arg_tests() and not has_call(
+                        e.all_args(), 'if'):
+                merged.add(sl)
+    ok = isinstance(slots, (list, tuple)) and len(slots) >= 4 and \
+        merged == set(slots)
     ctx.ob(R, 'ForwardOptions.update|all-slots', ok, up.node,
            'update() does not merge every slot (unfiltered)')
     libs = F.stored(li, 'libs') or set()
@@ -248,8 +256,21 @@ def rpath_origin(ctx):
            'relpath() ignores its prefix')
     fl = F.fn('bfg9000.tools.cc.linker:CcLinker.flags')
     r = F.returns(fl)
-    ok = has_const(r, '-Wl,-rpath,') and has_call(r, 'local_rpath')
-    lrs = F.calls_to(fl, '_local_rpath', depth=0)
+    lrs = [e for e in F.calls_to(fl, '_local_rpath', depth=2)
+           if e.fn.cls is fl.cls]
+    if any(e.fn is fl for e in lrs):
+        ok = has_const(r, '-Wl,-rpath,') and has_call(r, 'local_rpath')
+    else:
+        # the work is delegated to helper methods (lists filled through
+        # parameters are not followed): the flag is built by one of them
+        # from a list, and the rpath of every library is collected into a
+        # list by extend/append
+        helpers = [g for g in F.reach(fl, 2) if g.cls is fl.cls]
+        ok = any(has_const(F.returns(g), '-Wl,-rpath,') for g in helpers) \
+            and any(has_call(e.all_args(), '_local_rpath')
+                    for e in F.effects(fl, lambda e: e.name in (
+                        'extend', 'append') and e.fn.cls is fl.cls,
+                        depth=2))
     ok = ok and bool(lrs) and all(has(e.arg(0), 'library') and param_of(
         e.arg(1), 'output') for e in lrs)
     ctx.ob(R, 'CcLinker.flags|rpath-from-libs', ok, fl.node,
@@ -299,6 +320,61 @@ def _allocs_ret(F, fn):
     return {a for a in F.returns(fn) if a.startswith('alloc:')}
 
 
+def _must_append_for_strings(F, ap, aps):
+    g = F.cfg(ap)
+
+    def truth(t):
+        """Truth of test t when the option is a string (None: unknown)."""
+        if isinstance(t, ast.UnaryOp) and isinstance(t.op, ast.Not):
+            v = truth(t.operand)
+            return None if v is None else not v
+        if isinstance(t, ast.BoolOp):
+            vs = [truth(v) for v in t.values]
+            if isinstance(t.op, ast.Or):
+                if any(v is True for v in vs):
+                    return True
+                return False if all(v is False for v in vs) else None
+            if any(v is False for v in vs):
+                return False
+            return True if all(v is True for v in vs) else None
+        if isinstance(t, ast.Call) and unparse(t.func) == 'isinstance':
+            a = F.atoms(t, ap)
+            if has(a, 'stringy_types') and param_of(
+                    F.atoms(t.args[0], ap), Q.params(ap.node)[1]):
+                return True
+        return None
+    succ = {n: set(v) for n, v in g.succ.items()}
+    for n in list(succ):
+        if isinstance(n, ast.If):
+            v = truth(n.test)
+            if v is None:
+                continue
+            body_entry = n.body[0]
+            if v:
+                succ[n] = {x for x in succ[n] if x is body_entry}
+            else:
+                succ[n] = {x for x in succ[n] if x is not body_entry}
+    targets = set()
+    for e in aps:
+        try:
+            targets.add(g.stmt_of(e.call))
+        except Exception:
+            pass
+    if not targets:
+        return False
+    seen, stack = {'ENTRY'}, ['ENTRY']
+    while stack:
+        n = stack.pop()
+        for x in succ.get(n, ()):
+            if x in targets or x in seen:
+                continue
+            if x in ('EXIT', 'RAISE'):
+                return False
+            seen.add(x)
+            stack.append(x)
+    return True
+
+
 def link_words(ctx):
     R = 'LINK-WORDS-KEPT'
     ctx.rule(R, 'every word returned by _link_lib reaches the link line '
@@ -322,9 +398,12 @@ def link_words(ctx):
            'the words of a library are filtered / de-duplicated before '
            'they reach the link line')
     up = F.fn(OPT + 'ForwardOptions.update')
-    ok = bool(F.effects(up, lambda e: e.name == 'extend', depth=0)) and \
-        not any(isinstance(n, (ast.If, ast.IfExp)) for n in ast.walk(
-            up.node))
+    ext = F.effects(up, lambda e: e.name == 'extend', depth=1)
+    ok = bool(ext) and not any(
+        e.control() - {a for a in e.control() if '__slots__' in a} or
+        e.arg_tests() or has_call(e.all_args(), 'if') or has_call(
+            e.all_args(), 'uniques') or has_call(e.all_args(), 'set')
+        for e in ext)
     ctx.ob(R, 'ForwardOptions.update|plain-extend', ok, up.node,
            'forwarded options are filtered while merging')
     ap = F.fn(OPT + 'option_list.append')
@@ -346,6 +425,11 @@ def link_words(ctx):
                      for t, pos in F.guards_pol(e.call, ap) if pos) and
                  any(pos for t, pos in F.guards_pol(e.call, ap))
                  for e in aps)
+    if not ok:
+        # general form: assume isinstance(option, stringy_types) holds,
+        # drop the branches that assumption rules out, and require that
+        # every path through the function passes an append
+        ok = _must_append_for_strings(F, ap, aps)
     ctx.ob(R, 'option_list.append|strings-never-deduplicated', ok, ap.node,
            'raw string options are de-duplicated')
 
